@@ -5,6 +5,7 @@ import (
 	"go/ast"
 	"go/token"
 	"go/types"
+	"golang.org/x/tools/go/packages"
 	"regexp"
 	"strings"
 
@@ -212,20 +213,7 @@ func semanticCrashReason(c *Ctx, g *load.G, s crashSite) (class, reason, side st
 		}
 		if s.Pkg == "main" {
 			// a helper of the grammar actions: every caller is a method of *current (runs under the parser's recover)
-			called, outside := false, ""
-			for _, f := range load.AllFuncDecls(p) {
-				if f.Body == nil {
-					continue
-				}
-				for _, ce := range callsIn(f.Body) {
-					if id, ok := ce.Fun.(*ast.Ident); ok && p.TypesInfo.Uses[id] == p.TypesInfo.Defs[fd.Name] {
-						called = true
-						if load.RecvName(f) != "current" {
-							outside = f.Name.Name
-						}
-					}
-				}
-			}
+			called, outside := actionCallers(p, fd, map[*ast.FuncDecl]bool{})
 			if called && outside == "" && fd.Recv == nil {
 				return "action-helper", "called only from grammar actions, which run under the front-end parser's recover handler (C13-c)", ""
 			}
@@ -313,3 +301,36 @@ func inDefaultOfTypeSwitch(fd *ast.FuncDecl, ce *ast.CallExpr) bool {
 }
 
 var _ = types.Typ
+
+// actionCallers: is the plain function fd called at all, and is every caller a grammar action (a method of *current)
+// or a plain function that itself is called from grammar actions only (a helper written in the grammar's initializer)?
+// outside names a caller that is neither.
+func actionCallers(p *packages.Package, fd *ast.FuncDecl, busy map[*ast.FuncDecl]bool) (called bool, outside string) {
+	if busy[fd] {
+		return true, ""
+	}
+	busy[fd] = true
+	defer delete(busy, fd)
+	for _, f := range load.AllFuncDecls(p) {
+		if f.Body == nil || f == fd {
+			continue
+		}
+		for _, ce := range callsIn(f.Body) {
+			id, ok := ce.Fun.(*ast.Ident)
+			if !ok || p.TypesInfo.Uses[id] != p.TypesInfo.Defs[fd.Name] {
+				continue
+			}
+			called = true
+			switch {
+			case load.RecvName(f) == "current":
+			case f.Recv == nil:
+				if c2, out2 := actionCallers(p, f, busy); !c2 || out2 != "" {
+					outside = f.Name.Name
+				}
+			default:
+				outside = f.Name.Name
+			}
+		}
+	}
+	return called, outside
+}
